@@ -45,7 +45,8 @@ class World:
         import frappy.protocol.dispatcher as DP
         import frappy.params as P
         self.r, self.nodes, self.env, self.C, self.E = r, nodes, env, C, E
-        self.watch = [MB.Module.announceUpdate, DP.Dispatcher.broadcast_event, DP.make_update, DP.Dispatcher.announce_update, P.Parameter.__set__]
+        self.watch = [MB.Module.announceUpdate, DP.Dispatcher.broadcast_event, DP.make_update, DP.Dispatcher.announce_update, P.Parameter.__set__,
+                      DP.Dispatcher.handle_activate]
         self.MB = MB
         self.shim_ok = shimimport.verify()
 
@@ -224,6 +225,15 @@ class World:
                 actor(0)
             else:
                 ths = [D.CoThread(target=actor, args=(a,), name=f'actor{a}') for a in range(nactors)]
+
+                def late_observer():
+                    # a connection that activates while the actors are at work: its stream (snapshot + updates)
+                    # must reconstruct the cache as well
+                    late = Conn('late')
+                    conns['late'] = late
+                    disp.add_connection(late)
+                    disp.handle_request(late, ('activate', None, None))
+                ths.append(D.CoThread(target=late_observer, name='late-observer'))
                 for t in ths:
                     t.start()
                 for t in ths:
@@ -262,6 +272,21 @@ class World:
             r.violation('C05/message-to-inactive-connection', repr(conns['idle'].out[0])[:200], case)
             return
         msgs = {c: [e for e in s.events if e[3] == 'msg' and e[4] == c] for c in ('obs', 'modobs')}
+        if 'late' in conns:
+            # the late observer: replay clause only (its first messages are the snapshot of an activation in mid-history)
+            for pn in ('x', 's', 'a'):
+                seq = [e[5] for e in s.events if e[3] == 'msg' and e[4] == 'late' and e[5][0] in ('update', 'error_update') and e[5][1] == f'm:_{pn}']
+                pobj = m.parameters[pn]
+                r.count('clause_replay_late_observer')
+                if not seq:
+                    r.violation('C05/no-initial-update', f'late observer got no update for {pn}', case)
+                    return
+                last = seq[-1]
+                final = ('err', pobj.readerror.name, str(pobj.readerror)) if pobj.readerror else ('val', json.loads(json.dumps(pobj.export_value())))
+                got = ('err', last[2][0], last[2][1]) if last[0] == 'error_update' else ('val', last[2][0])
+                if got != final:
+                    r.violation('C05/replay-differs-from-cache/late-observer', f'late/{pn}: last message {got}, cache {final}', dict(case, param=pn))
+                    return
         for cname in ('obs', 'modobs'):
             per = {}
             for e in msgs[cname]:
